@@ -149,6 +149,9 @@ class Gen(object):
             return [s, min(52, nw + d), nf + r.randint(-1, d)]
         if k < 0.85:
             return [s, nw, max(-8, nf - r.randint(1, 4))]
+        if k < 0.9:
+            # many more fraction bits: the re-scaled code outgrows the machine word before it is clamped
+            return self.clamp_fmt([s, min(52, nw + r.randint(0, 6)), nf + r.randint(12, 50)])
         return self.fmt()
 
     def clamp_fmt(self, fmt):
@@ -1236,6 +1239,8 @@ class Gen(object):
             kr, ir = self.pick(lambda q: self.is_real(q) and q is not self.w.slots[i].obj)
             if kr is not None:
                 op['reg'] = self.cands().index(ir)
+        if r.random() < 0.4:
+            op['method'] = r.choice(['raw', 'repr'])
         return op
 
     def g_template(self):
@@ -1547,9 +1552,17 @@ class Gen(object):
                     return {'op': 'call', 'slot': self.cands().index(i), 'val': arr, 'via': r.choice(['call', 'set_val'])}
             return {'op': 'new', 'val': ['l', items], 'fmt': fmt, 'kw': kw}
         q = r.random()
+        as_code = val[0] == 'i' and r.random() < 0.3      # the integer handed over as a raw code
         if q < 0.4:
-            return {'op': 'new', 'val': val, 'fmt': fmt, 'kw': kw}
+            op = {'op': 'new', 'val': val, 'fmt': fmt, 'kw': kw}
+            if as_code:
+                op['raw'] = True
+            return op
         pred = lambda o: self.is_real(o) and o.config.overflow == 'saturate' and o.n_frac >= 0 and not o.scaled
+        if as_code and q < 0.75:
+            ks, i = self.pick(pred)
+            if ks is not None:
+                return {'op': 'set_raw', 'slot': self.cands().index(i), 'val': val}
         if q < 0.75:
             # prefer destinations whose value type no longer matches their format (built from an
             # int, later given fraction bits): the read-back after the store takes another path
@@ -1759,8 +1772,39 @@ class Gen(object):
             self.w.bump('generator_fallback_' + type(e).__name__)
             return {'op': 'new', 'val': ['i', 1], 'fmt': [True, 8, 2], 'kw': {}}
 
+    def prologue(self):
+        """First run of a process (fault F5 aimed): the very first objects of the process are built while
+        a global template is in force; the template is then withdrawn and more objects are built.
+        Whatever the library remembered from its first moments must not shape the later ones."""
+        r = self.rng
+        q = r.random()
+        fmt = lambda: self.fmt()
+        if q < 0.45:
+            kw = {'rounding': r.choice([x for x in ROUNDINGS if x != 'trunc']), 'overflow': r.choice(OVERFLOWS)}
+            if r.random() < 0.5:
+                kw['shifting'] = r.choice(['trunc', 'keep'])
+            if r.random() < 0.5:
+                kw['op_sizing'] = r.choice([x for x in SIZINGS if x != 'optimal'])
+            seq = [lambda: {'op': 'cfg_new', 'kw': kw}, lambda: {'op': 'cfg_template', 'c': 0}]
+            seq += [lambda: self.g_new(fmt=fmt(), ncb=0) for _ in range(r.randint(1, 2))]
+            seq += [lambda: {'op': 'cfg_template', 'c': None}]
+            seq += [lambda: dict(self.g_new(fmt=fmt(), ncb=0), kw={}) for _ in range(r.randint(1, 2))]
+            return seq
+        if q < 0.7:
+            seq = [lambda: self.g_new(fmt=fmt(), ncb=0, full_modes=True), lambda: {'op': 'template_set', 'slot': 0}]
+            seq += [lambda: {'op': 'new', 'val': ['i', 1], 'fmt': [None, None, None], 'kw': {}}]
+            seq += [lambda: {'op': 'template_clear'}]
+            seq += [lambda: dict(self.g_new(fmt=fmt(), ncb=0), kw={}) for _ in range(r.randint(1, 2))]
+            return seq
+        return []
+
     def _draw_op(self):
         self.force = None
+        if self.p.get('pristine') and not getattr(self, '_prologue_drawn', False):
+            self._prologue_drawn = True
+            self._prologue = self.prologue()
+        if getattr(self, '_prologue', None):
+            return self._prologue.pop(0)()
         if not self.cands():
             self.queue = []
             return self.g_new()
